@@ -235,6 +235,16 @@ Proof.
     [cbn [bind]; cbv zeta; rewrite ?bind_assoc; reflexivity|reflexivity]).
 Qed.
 
+Lemma sel_group_some d en keys aggs hav (X : res (list row)) :
+  bind X (sel_group d en (Some (keys, aggs)) hav)
+  = (do grows <- bind X (sel_aggregate d en keys aggs);
+     do hk <- mapM (fun r => do b <- opt_pred (eval_expr d (r :: en)) hav; Ok (if b then [r] else [])) grows;
+     Ok (concat hk)).
+Proof. unfold sel_group. rewrite bind_assoc. reflexivity. Qed.
+
+Lemma sel_group_none d en hav (X : res (list row)) : bind X (sel_group d en None hav) = X.
+Proof. unfold sel_group. apply bind_ret. Qed.
+
 Section Generic.
   Variable rel : forall A : Type, res A -> res A -> Prop.
   Arguments rel {A}.
@@ -389,7 +399,7 @@ Section Generic.
                      match hav with None => a | Some e => LFilter (plan_expr mkjoin e) a end
                  end).
       assert (H2 : rel (eval_lplan d en p2) (bind (sel_where d en f wh) (sel_group d en grp hav))).
-      { subst p2. unfold sel_group. destruct grp as [[keys aggs]|].
+      { subst p2. destruct grp as [[keys aggs]|].
         - cbn [grpP fst snd] in IHgrp. destruct IHgrp as [IHk IHa].
           apply andb_true_iff in Hwgrp. destruct Hwgrp as [Hwk Hwa].
           rewrite Forall_forall in IHk, IHa. rewrite forallb_forall in Hwk, Hwa.
@@ -406,19 +416,10 @@ Section Generic.
                          = match keys, group_rows kv with [], [] => [([], [])] | _, g => g end).
               { destruct keys; reflexivity. }
               cbv zeta. rewrite Eg. apply rel_mapM. intros g _. unfold agg_row.
-              apply rel_bind1. rewrite mapM_map. apply rel_mapM. intros [[fn dis0] arg] Ha.
+              apply rel_bind1. rewrite !mapM_map. apply rel_mapM. intros [[fn dis0] arg] Ha. cbv beta iota.
               apply rel_bind1. apply rel_mapM. intros r _.
               apply (IHa (fn, dis0, arg) Ha); [exact (Hwa _ Ha)|exact Hd]. }
-          cbv zeta.
-          assert (E : (do rows <- sel_where d en f wh;
-                       do grows <- sel_aggregate d en keys aggs rows;
-                       do hk <- mapM (fun r => do b <- opt_pred (eval_expr d (r :: en)) hav; Ok (if b then [r] else [])) grows;
-                       Ok (concat hk))
-                      = (do grows <- bind (sel_where d en f wh) (sel_aggregate d en keys aggs);
-                         do hk <- mapM (fun r => do b <- opt_pred (eval_expr d (r :: en)) hav; Ok (if b then [r] else [])) grows;
-                         Ok (concat hk))).
-          { rewrite bind_assoc. reflexivity. }
-          rewrite E. clear E.
+          cbv zeta. rewrite sel_group_some.
           destruct hav as [e|].
           + cbn [eval_lplan]. unfold rfilter. apply rel_bind; [exact HA|]. intros grows _ _.
             apply rel_bind1. apply rel_mapM. intros r _. apply rel_bind1. cbn [opt_pred]. apply rel_bind1.
@@ -429,26 +430,17 @@ Section Generic.
                         = bind (sel_where d en f wh) (sel_aggregate d en keys aggs)).
             { apply (filter_none_id (fun r => eval_expr d (r :: en))). }
             rewrite E. exact HA.
-        - rewrite bind_ret. exact H1. }
+        - rewrite sel_group_none. exact H1. }
       (* stage 3: projection, DISTINCT *)
-      assert (H3 : rel (eval_lplan d en (LProject (map (plan_expr mkjoin) sel) p2))
-                       (do rows2 <- bind (sel_where d en f wh) (sel_group d en grp hav);
-                        mapM (fun r => mapM (eval_expr d (r :: en)) sel) rows2)).
-      { cbn [eval_lplan]. apply rel_bind; [exact H2|]. intros rows2 _ _. unfold rproject.
+      assert (Hproj : forall rows2, rel (rproject (fun r => mapM (eval_pexpr d (r :: en)) (map (plan_expr mkjoin) sel)) rows2)
+                                        (mapM (fun r => mapM (eval_expr d (r :: en)) sel) rows2)).
+      { intros rows2. unfold rproject.
         apply rel_mapM. intros r _. apply rel_mapM_map. intros e He.
         rewrite Forall_forall in IHsel. rewrite forallb_forall in Hwsel. apply IHsel; [exact He|apply Hwsel, He|exact Hd]. }
       destruct dis.
-      + cbn [eval_lplan]. unfold rdistinct.
-        match goal with |- rel _ (bind ?X ?G) =>
-          assert (E : bind X G = (do out <- (do rows2 <- X; mapM (fun r => mapM (eval_expr d (r :: en)) sel) rows2); Ok (dedup_rows out)))
-        end.
-        { rewrite bind_assoc. reflexivity. }
-        rewrite E. apply rel_bind1. exact H3.
-      + match goal with |- rel _ (bind ?X ?G) =>
-          assert (E : bind X G = (do rows2 <- X; mapM (fun r => mapM (eval_expr d (r :: en)) sel) rows2))
-        end.
-        { destruct (bind (sel_where d en f wh) _) as [rows2|er]; [|reflexivity]. cbn [bind]. rewrite bind_ret. reflexivity. }
-        rewrite E. exact H3.
+      + cbn [eval_lplan]. rewrite bind_assoc. apply rel_bind; [exact H2|]. intros rows2 _ _.
+        unfold rdistinct. apply rel_bind1. apply Hproj.
+      + cbn [eval_lplan]. apply rel_bind; [exact H2|]. intros rows2 _ _. rewrite bind_ret. apply Hproj.
     - (* QUnion *) intros all a b IHa IHb Hw d en Hd. cbn [wf_query] in Hw. apply andb_true_iff in Hw. destruct Hw as [Ha Hb].
       cbn [plan_query eval_lplan eval_query]. apply rel_bind; [apply IHa; assumption|]. intros x _ _.
       apply rel_bind1. apply IHb; assumption.
@@ -475,8 +467,7 @@ Section Generic.
         rewrite E0. exact Ho.
       + cbn [eval_lplan]. unfold rlimit. apply rel_bind1. exact Ho.
     - (* FQuery *) intros q IHq Hw d en Hd. cbn [wf_from] in Hw. cbn [plan_from eval_from].
-      destruct q; try (cbn [eval_lplan]; apply IHq; assumption).
-      apply rel_refl.
+      destruct q; cbn [eval_lplan]; apply IHq; assumption.
     - (* FJoin *) intros k l r on la ra IHl IHr IHon Hw d en Hd. cbn [wf_from] in Hw.
       apply andb_true_iff in Hw. destruct Hw as [Hw Hon]. apply andb_true_iff in Hw. destruct Hw as [Hl Hr].
       destruct on as [e|].
